@@ -607,6 +607,11 @@ val decomperss : decompressor -> decompressor * ierr
 
 val step_discard : decompressor -> (berror option * decompressor) option
 
+val step_discard_at :
+  z -> decompressor -> (berror option * decompressor) option
+
+val held_nonneg : decompressor -> z
+
 val step : decompressor -> decompressor * rres option
 
 val hist_slice : nat -> arr -> n -> n list
